@@ -500,6 +500,7 @@ class StepHang(BaseException):
 
 
 STEP_CPU_LIMIT = 10.0          # seconds of CPU for one scheduler step (a step normally takes milliseconds)
+HUNG_TOTAL = [0]               # number of watchdog interruptions in this process (read by vlib.Verdict.finish)
 
 
 def _on_vtalrm(signum, frame):
@@ -537,6 +538,7 @@ class _Enter:
                 # the instance is stuck in a loop: reported as an internal error; the instance is taken out
                 c.errors.append({'node': self.name, 'what': 'step did not terminate', 'exc': repr(exc)})
                 c.hung.append(self.name)
+                HUNG_TOTAL[0] += 1
                 try:
                     for p in c.proxies(self.name).values():
                         with p.queue.mutex:
